@@ -253,7 +253,11 @@ func c15Date(c *fw.Ctx, n int) {
 			c.Outcome(k.name + "-previous-unrepresentable")
 		}
 		// bucket hash: equal to the previous day's hash exactly when both lie in the same period
-		h := k.hash()
+		var h uint32
+		if pn, v, st := fw.Try(func() { h = k.hash() }); pn {
+			bad("panic:"+k.name+"-hash:"+fw.PanicSite(st), fmt.Sprintf("%s Hash() panicked: %v\n%s", k.name, v, st))
+			continue
+		}
 		if n == sm.Clamp(k.since) {
 			c.SetAdd(k.name+"hash", strconv.FormatUint(uint64(h), 10))
 		}
